@@ -127,7 +127,8 @@ func (g *gen) hostileHeader(name string, tokens []string) string {
 	var specific []string
 	switch name {
 	case "Forwarded", "X-Verif-Forwarded":
-		specific = []string{"host=op.example.com", "host=", "host", "host=\"", "host=\"a\\", "host=\"a\\\"", "for=1.2.3.4;host=evil.example;proto=http", ";;;", "host=a, host=b",
+		specific = []string{"host=\"\"", "for=192.0.2.60;host=\"\";proto=https", "host=\" \"", "host=\"\t\"", "host=\"\";host=op.example.com", "host=op.example.com, host=\"\"",
+			"host=op.example.com", "host=", "host", "host=\"", "host=\"a\\", "host=\"a\\\"", "for=1.2.3.4;host=evil.example;proto=http", ";;;", "host=a, host=b",
 			"HOST=Op.Example.Com", "host=" + g.junk(2), g.junk(2) + "host=x", "host=x;host=y", "=", ",", "host==", "Kost=x",
 			"host=op.example.com;for=", "host=op.example.com;;", "host=op.example.com, for=x", "by=x", "proto=https"}
 		// host values (a ':' needs the quoted form), bare or quoted
@@ -677,6 +678,8 @@ func authCases(w *emit.Writer, g *gen, n int) {
 
 // ---- issuer from forwarding headers: every line of the configured headers goes through the forwarded-host parser ----
 
+var emptyHosts = []string{`host=""`, `for=192.0.2.60;host="";proto=https`, `host=" "`, "host=\"\t\""}
+
 func forwardedCases(w *emit.Writer, g *gen, n int) {
 	r := g.r
 	x := newFixt("forwarded")
@@ -688,17 +691,41 @@ func forwardedCases(w *emit.Writer, g *gen, n int) {
 			vals = append(vals, g.hostileHeader(name, nil))
 		}
 		var req *http.Request
-		switch r.IntN(5) {
+		post := func(path, body string) *http.Request {
+			q := httptest.NewRequest(http.MethodPost, opfix.Issuer+path, strings.NewReader(body))
+			q.Header.Set("Content-Type", "application/x-www-form-urlencoded")
+			q.Header.Set("Authorization", basicHeader("web", "web-secret"))
+			return q
+		}
+		ep := r.IntN(12)
+		if i < 12*len(emptyHosts) { // first, systematically: every endpoint x an empty / blank host value
+			ep = i / 2 % 12
+			vals = []string{emptyHosts[i/24]}
+		}
+		switch ep {
 		case 0:
 			req = httptest.NewRequest(http.MethodGet, opfix.Issuer+"/authorize?"+g.flowOpts("").query().Encode(), nil)
 		case 1:
-			req = httptest.NewRequest(http.MethodPost, opfix.Issuer+"/device_authorization", strings.NewReader("scope=openid"))
-			req.Header.Set("Content-Type", "application/x-www-form-urlencoded")
-			req.Header.Set("Authorization", basicHeader("web", "web-secret"))
+			req = post("/device_authorization", "scope=openid")
 		case 2:
-			req = httptest.NewRequest(http.MethodPost, opfix.Issuer+"/oauth/token", strings.NewReader("grant_type=client_credentials&scope=openid"))
-			req.Header.Set("Content-Type", "application/x-www-form-urlencoded")
-			req.Header.Set("Authorization", basicHeader("web", "web-secret"))
+			req = post("/oauth/token", "grant_type=client_credentials&scope=openid")
+		case 3:
+			req = httptest.NewRequest(http.MethodGet, opfix.Issuer+"/keys", nil)
+		case 4:
+			req = httptest.NewRequest(http.MethodGet, opfix.Issuer+"/userinfo", nil)
+			req.Header.Set("Authorization", "Bearer abc")
+		case 5:
+			req = post("/oauth/introspect", "token=abc")
+		case 6:
+			req = post("/revoke", "token=abc")
+		case 7:
+			req = httptest.NewRequest(http.MethodGet, opfix.Issuer+"/end_session?state=x", nil)
+		case 8:
+			req = httptest.NewRequest(http.MethodGet, opfix.Issuer+drv.Pick(r, []string{"/healthz", "/ready"}), nil)
+		case 9:
+			req = httptest.NewRequest(http.MethodGet, opfix.Issuer+"/authorize/callback?id=none", nil)
+		case 10:
+			req = post("/oauth/token", "grant_type=refresh_token&refresh_token=x")
 		default:
 			req = httptest.NewRequest(http.MethodGet, opfix.Issuer+"/.well-known/openid-configuration", nil)
 		}
